@@ -3,7 +3,10 @@ from facts import walk, callee_of, call_args, loc
 import hirq, anchors, absx, cone, engine
 
 EXPLANATION = ("G1 on every path of the frame decoder, `Ok(None)` (need more bytes) is returned exactly when the TLV parser reported "
-               "Incomplete, and no buffer-mutating call (advance, split_to, truncate, clear, ...) precedes that return; a path that answers "
+               "Incomplete, and no buffer-mutating call (advance, split_to, truncate, clear, ...) precedes that return (what the decoder answers is read through the "
+               "Option / Result adaptors it is passed through, in whichever function they sit: a wrapper `Ok(body(buf)?.filter(pred))` answers Ok(None) wherever pred "
+               "rejects a delivered message - a complete, consumed frame answered need-more - unless pred is decided to hold from what the path knows, e.g. `id >= 0` of an "
+               "ID narrowed to i32 under `id <= i32::MAX`); a path that answers "
                "anything else after Incomplete must have established that the whole outermost element is already buffered (len(buf) >= "
                "identifier octet + length octets + announced length), i.e. be dead - decided by evaluating the decoder for each of the "
                "256 values of the first length octet with the other octets and the buffer length symbolic (rules/framelen.py); G2 every path "
@@ -33,11 +36,14 @@ EXPLANATION = ("G1 on every path of the frame decoder, `Ok(None)` (need more byt
                "so not claimed either way).")
 TRUSTED = ['tokio_util::codec::Framed (its read loop hands the read buffer to Decoder::decode and to nobody else; accessor semantics as tabulated in rules/readbuf.py after tokio-util 0.7)', 'nom streaming parsers report Incomplete on short input', 'bytes::BytesMut::advance']
 UNDECIDED = ['Framed\'s read loop (trusted)', 'sizes beyond the read buffer (runtime quantity)']
-ASSUMPTIONS = []
+ASSUMPTIONS = ['G4 / G7: a test that Decoder::decode makes of the message ID the frame decoder delivered is decided under 0 <= ID <= maxInt, the bound C01 R1.message-id-exact / C11 H8 decide for every delivered ID']
 SHARED = [('C07', ('B2.reader',), 'G5.length-reader'), ('C07', ('B7.', 'B4.remainder'), 'G6.tlv-parser')]      # the frame boundary is where the length reader says it is, however the bytes arrive
 CONFIGS = ['default', 'nodefault', 'rustls', 'gssapi']
 QUICK_CONFIGS = ['default', 'gssapi']      # the SASL token layer (G7) exists only with the gssapi feature
 
+# what C01 R1.message-id-exact / C11 H8 establish about every message ID the frame decoder delivers (RFC 4511 4.1.1.1: 0 .. maxInt); G4 / G7
+# decide a test of the delivered ID in Decoder::decode under it (rules/wrapper.py) - if it did not hold, those two rules report it
+DELIVERED_IDS = (0, 2 ** 31 - 1)
 MUTATORS = ('advance', 'split_to', 'split_off', 'split', 'truncate', 'clear', 'resize', 'extend', 'extend_from_slice', 'put', 'put_slice', 'unsplit', 'set_len', 'freeze', 'copy_to_bytes', 'get_u8')
 
 def check_frame_decoder(ctx, f, G1='G1', G2='G2'):
@@ -48,7 +54,12 @@ def check_frame_decoder(ctx, f, G1='G1', G2='G2'):
     B = hirq.Body(f, f.hir[dp])
     ctx.analysed['bodies'].add(dp)
     buf = ('param', [d['name'] for b, d in B.defs.items() if d['kind'] == 'param'][0])
-    outs = absx.Interp(f, B, local_try=True).run()          # (a `?` inside a helper expanded into the decoder leaves that helper)
+    # (local_try: a `?` inside a helper expanded into the decoder leaves that helper; combinators: what the decoder answers is read
+    # through the Option / Result adaptors it is passed through - `Ok(frame(buf)?.filter(pred))` around the body answers Ok(None)
+    # wherever the body does, and wherever pred rejects what the body delivers)
+    I = absx.Interp(f, B, local_try=True, combinators=True)
+    I.cast_ranges = True          # (.. and a test of a value narrowed under a range test is decided from that test: `id as i32 >= 0` under `id <= i32::MAX as u64`)
+    outs = I.run()
     def parse_calls(o):
         return [e for e in o.st.ev if e[0] == 'call' and e[1] == 'lber::parse::Parser::parse']
     def mutations(o):
@@ -83,9 +94,12 @@ def check_frame_decoder(ctx, f, G1='G1', G2='G2'):
         if is_none:
             n_none += 1
             ctx.add(G1 + '.need-more-only-on-incomplete', dp, loc(B.root), is_err is True and inc is True,
-                    '`Ok(None)` is returned on a path where the parser did not report Incomplete')
+                    '`Ok(None)` is returned on a path where the parser did not report Incomplete' + (
+                        ' but handed over a complete element: the frame has arrived and is neither delivered nor rejected - to the transport Ok(None) means "nothing to '
+                        'decode yet, read the socket first", so complete frames buffered behind this one wait for the peer\'s next byte' if is_err is False else ''))
             ctx.add(G1 + '.buffer-intact-before-need-more', dp, loc(B.root), not muts,
-                    'the buffer is modified (%s) before asking for more bytes: bytes of the partial frame are lost' % [m[1].split('::')[-1] for m in muts])
+                    'the buffer is modified (%s) before asking for more bytes: %s' % ([m[1].split('::')[-1] for m in muts],
+                        'the complete frame the parser handed over is taken out of the buffer and then answered "need more" - it is lost' if is_err is False else 'bytes of the partial frame are lost'))
         else:
             if inc is True:
                 other_answer.append(o); continue
@@ -173,7 +187,7 @@ def run(ctx):
         else:
             # every path of decode answers what the frame decoder answers for the caller's buffer; a test of its own may answer
             # Ok(None) only where the frame decoder would (rules/wrapper.py: decided per value of the first length octet)
-            wrapper.check(ctx, f, D, dp, 'G4.decode-is-frame-decoder')
+            wrapper.check(ctx, f, D, dp, 'G4.decode-is-frame-decoder', id_range=DELIVERED_IDS)
     else:
         # gssapi: the SASL layer keeps state; the frame decoder itself (G1/G2 above) is what is decided, on whichever buffer it is given
         calls = [n for n, c in walk(D.root) if n['k'] == 'Call' and callee_of(n) == dp]
@@ -184,14 +198,24 @@ def run(ctx):
         # needs (a length comparison that holds) answers Ok(None).  A literal Ok(None) path has not touched the buffer.
         # G7 (plain connection) with the codec in the state it is constructed in - no security layer was negotiated - decode is the
         # frame decoder applied to the caller's buffer, exactly as in the configuration without the layer (rules/wrapper.py)
-        wrapper.check(ctx, f, D, dp, 'G7.plain-connection-is-frame-decoder')
+        wrapper.check(ctx, f, D, dp, 'G7.plain-connection-is-frame-decoder', id_range=DELIVERED_IDS)
         buf = ('param', 'buf')
         n_err = n_wait = 0
         for o in absx.Interp(f, D, combinators=True).run():
             if o.kind not in ('val', 'ret'):
                 continue
             v = o.val
-            from_decoder = v[0] == 'call' and v[1] == dp
+            # the frame decoder's own answer: its call term, the failure side of a `?` applied to it, or its error rebuilt (`Err(e)` /
+            # `Err(e.into())` with e the payload of its Err - the identity for the decoder's own error type)
+            e_ = v
+            while e_[0] == 'tryerr':
+                e_ = e_[1]
+            if e_[0] == 'ctor' and e_[1] == 'Err' and len(e_[2]) == 1:
+                e_ = e_[2][0]
+                while e_[0] == 'call' and e_[1].rsplit('::', 1)[-1] in ('from', 'into') and len(e_[2]) == 1:
+                    e_ = e_[2][0]
+                e_ = e_[1] if e_[0] == 'variant' and e_[2] == 'Err' else ('unk',)
+            from_decoder = e_[0] == 'call' and e_[1] == dp
             is_err = (v[0] == 'ctor' and v[1] == 'Err') or v[0] == 'tryerr'
             muts = [e for e in o.st.ev if e[0] == 'call' and e[2] and e[2][0] == buf and e[1].rsplit('::', 1)[-1] in ('advance', 'split_to', 'split_off', 'clear', 'truncate', 'split', 'extend', 'extend_from_slice', 'reserve', 'unsplit')]
             if is_err and not from_decoder:
